@@ -345,6 +345,13 @@ func dwrBytes(r *RNG, mode int) []byte {
 	if mode == 4 {
 		app = 4
 	}
+	// optional AVPs a real peer's watchdog carries
+	if r.Chance(35) {
+		as = append(as, diam.NewAVP(278, 0x40, 0, datatype.Unsigned32([]uint32{0, 1, 1234567, 0xffffffff}[r.Intn(4)])))
+	}
+	if r.Chance(10) {
+		as = append(as, diam.NewAVP(281, 0, 0, datatype.UTF8String("watchdog")))
+	}
 	return simpleMsg(280, flags, app, []uint32{0, genID(r)}[r.Intn(2)], genID(r), as...)
 }
 
